@@ -37,7 +37,8 @@ pub struct FuLi;
 
 impl private::Estimator for FuLi {
     fn estimate_unchecked<S: State>(spectrum: &Spectrum<S>) -> f64 {
-        spectrum.inner().as_slice()[1]
+        // The number of singletons, which is zero for a spectrum with a single entry
+        spectrum.inner().as_slice().get(1).copied().unwrap_or(0.0)
     }
 
     fn weight(_: usize, _: usize) -> f64 {
